@@ -82,7 +82,7 @@ def Vector_drop_na_decorators : List String := []
 
 /-- dataiter/vector.py: Vector.tolist (sha256 of the function source: 6c6b05c5c3a558ee) -/
 def Vector_tolist (truth : Term → Bool) : Out :=
-  Out.ret [] (Term.app "np.where(self.is_na(), None, self).tolist" [])
+  Out.ret [] (Term.app ".tolist" [(Term.app "np.where" [(Term.app ".is_na" [(Term.sym "self")]), (Term.sym "None"), (Term.sym "self")])])
 
 /-- the decorators of dataiter/vector.py: Vector.tolist, outermost first -/
 def Vector_tolist_decorators : List String := []
